@@ -51,8 +51,12 @@ impl Sync {
             None => (0, 0),
         };
 
-        bitbox_sync.wait_pre_meta()?;
-        let beatree_meta_wd = beatree_sync.wait_pre_meta()?;
+        // Both pre-meta phases are awaited before an error of either is propagated: no
+        // background writer may outlive a failed sync.
+        let bitbox_pre_meta = bitbox_sync.wait_pre_meta();
+        let beatree_pre_meta = beatree_sync.wait_pre_meta();
+        bitbox_pre_meta?;
+        let beatree_meta_wd = beatree_pre_meta?;
 
         if let Some(PanicOnSyncMode::PostWal) = self.panic_on_sync {
             panic!("panic_on_sync is true (post-wal)")
@@ -82,12 +86,18 @@ impl Sync {
             rollback.post_meta();
         }
 
-        bitbox_sync.post_meta(shared.io_pool.make_handle())?;
-        beatree_sync.post_meta();
-
-        if let Some(ref rollback) = rollback_sync {
-            rollback.wait_post_meta()?;
+        let bitbox_post_meta = bitbox_sync.post_meta(shared.io_pool.make_handle());
+        if bitbox_post_meta.is_ok() {
+            beatree_sync.post_meta();
         }
+
+        // The pruning of the rollback log is awaited even if the above failed, see above.
+        let rollback_post_meta = match rollback_sync {
+            Some(ref rollback) => rollback.wait_post_meta(),
+            None => Ok(()),
+        };
+        bitbox_post_meta?;
+        rollback_post_meta?;
         Ok(())
     }
 }
